@@ -283,8 +283,16 @@ class Ctx(object):
             if len(lt) != len(rt):      # real vs complex
                 lt, rt = _pair_up(a, b)
             self.records.append((label, lt))
-            goals = [T.not_(T.eq(u, v)) for u, v in zip(lt, rt) if u is not v]
-            self._oblige(label, goals, lt, rt, tol)
+            atol = tol if isinstance(tol, float) else (self.S.tol[0] if self.S.tol else 0.0)
+            goals = []
+            for u, v in zip(lt, rt):
+                if u is v:
+                    continue
+                if u.op == 'const' and v.op == 'const' and atol and \
+                        abs(u.val - v.val) <= atol * max(1, abs(v.val)):
+                    continue        # two concrete floats that differ by rounding only
+                goals.append(T.not_(T.eq(u, v)))
+            self._oblige(label, goals, lt, rt, tol if not isinstance(tol, float) else None)
             self._taint_check(label, lt)
         else:
             av = _to_float_array(a)
